@@ -243,6 +243,38 @@ func c06Stream(o *out, r *rng, thorough bool) {
 	if thorough {
 		trees = 200
 	}
+	runOne := func(t *tree, reqs []creq, key string) { c06Run(o, t, reqs, key) }
+	// directories with exactly 2^k entries (and neighbours): where a chunked or buffered enumeration
+	// meets the end of the directory exactly at a chunk border
+	sizes := []int{64, 256, 1024}
+	if thorough {
+		sizes = []int{1, 2, 64, 128, 255, 256, 257, 512, 1000, 1023, 1024, 1025, 2048, 4096}
+	}
+	for _, n := range sizes {
+		t := &tree{}
+		t.add(tnode{path: "/", kind: 'd', mtime: genMtime(r)})
+		t.add(tnode{path: "/p", kind: 'd', mtime: genMtime(r)})
+		for i := 0; i < n; i++ {
+			kind := byte('f')
+			if i%17 == 5 {
+				kind = 'd'
+			}
+			t.add(tnode{path: fmt.Sprintf("/p/n%05d", i), kind: kind, size: int64(i % 7), seed: 1, mtime: genMtime(r)})
+		}
+		o.count(fmt.Sprintf("exact-dir:%d", n))
+		runOne(t, []creq{{op: opOpenDir, path: "/p"}, {op: opReadDir}, {op: opGetDirSize, path: "/p"}}, fmt.Sprintf("exact%d:list", n))
+		if n <= 1100 {
+			op := uint16(opReadDirEntry)
+			if n%2 == 1 || n == 256 {
+				op = opReadDirEntryV2
+			}
+			reqs := []creq{{op: opOpenDir, path: "/p"}}
+			for i := 0; i < n+2; i++ {
+				reqs = append(reqs, creq{op: op})
+			}
+			runOne(t, reqs, fmt.Sprintf("exact%d:entries", n))
+		}
+	}
 	for ti := 0; ti < trees; ti++ {
 		t := genTree(r, 4, 8, true)
 		if ti%9 == 3 {
@@ -292,7 +324,15 @@ func c06Stream(o *out, r *rng, thorough bool) {
 					reqs = append(reqs, creq{op: opOpenDir, path: fs[0]})
 				}
 			}
-			key := fmt.Sprintf("%d:%s:%d", ti, d, mode)
+			runOne(t, reqs, fmt.Sprintf("%d:%s:%d", ti, d, mode))
+		}
+	}
+}
+
+// c06Run plays one enumeration session against the harness's own walk of the materialised tree.
+func c06Run(o *out, t *tree, reqs []creq, key string) {
+	{
+		{
 			runWithOracle(o, t, false, reqs, key, func(root string, nodes []tnode) string {
 				var sb strings.Builder
 				var cursor []string // names not yet enumerated
